@@ -5,6 +5,7 @@ and its declaration-permuted twin (ghost client of encode() through its contract
 @theorem("theorems:C15_twin")
 def c15_twin(f1: "ref:FcpV2", f2: "ref:FcpV2", name: "str", v: "dyn"):
     option("module", "fcp.serde")
+    option("opaque", ["conforms_struct"])
     requires(twin(f1, f2) and conforms_struct(f1, name, v) and conforms_struct(f2, name, v))
     ensures(arr_len(result[0]) == arr_len(result[1])
             and forall(0, arr_len(result[0]), lambda q: arr_get(result[0], q) == arr_get(result[1], q)))
